@@ -3513,7 +3513,6 @@ orc_compiler_sse_register_rules (OrcTarget *target)
   orc_rule_register (rule_set, "convsuslw", sse_rule_convsuslw, NULL);
   orc_rule_register (rule_set, "mulslq", sse_rule_mulslq, NULL);
   orc_rule_register (rule_set, "mulhsl", sse_rule_mulhsl, NULL);
-  orc_rule_register (rule_set, "convsssql", sse_rule_convsssql_sse41, NULL);
   REG(cmpeqq);
 #endif
 
@@ -3522,6 +3521,8 @@ orc_compiler_sse_register_rules (OrcTarget *target)
       ORC_TARGET_SSE_SSE4_2);
 
   REG(cmpgtsq);
+  /* uses pcmpgtq */
+  orc_rule_register (rule_set, "convsssql", sse_rule_convsssql_sse41, NULL);
 
   /* SSE 4a -- no rules */
 }
